@@ -169,7 +169,9 @@ def run_tier(prop, tier):
             eng_name, opts, seed, range(cfg["runs"]), workers=workers, chunk=cfg["chunk"],
             want_plans=3, max_viol_total=cfg["max_violations"],
             min_budget=cfg["min_budget"], wall_limit_s=cfg["wall_limit_s"],
-            systematic=eng.systematic_jobs(seed, tier))
+            systematic=eng.systematic_jobs(seed, tier),
+            progress=lambda d, n, m: (print("progress: %d/%d jobs, %d runs, %d violating, %.0fs" % (
+                d, n, m["runs"], m["violating_runs"], time.time() - t0)), sys.stdout.flush()))
         harness_errors += [str(h) for h in res["harness_errors"][:5]]
     except Exception as e:
         harness_errors.append("batch crashed: %r" % (e,))
